@@ -36,7 +36,29 @@ pub fn gen_value(rng: &mut Rng, bits: usize) -> Num {
             num::trim_be(&b)
         }
     };
-    match rng.below(14) {
+    match rng.below(17) {
+        14 => {
+            // decimal / base-10000 boundaries (postgres NUMERIC digits and weights, MONEY scaling)
+            use num_bigint::BigUint;
+            let max_k = (bits as f64 * 0.30103) as u32; // ~log10(2^bits)
+            let k = rng.below(max_k as usize + 1) as u32;
+            let base = if rng.chance(1, 2) { BigUint::from(10u32).pow(k) } else { BigUint::from(10000u32).pow(k / 4) * BigUint::from(1 + rng.below(9999) as u32) };
+            let d = *rng.pick(&[-1i64, 0, 0, 0, 1]);
+            clamp(num::add_small(&num::from_biguint(&base), d))
+        }
+        15 => {
+            // a small number shifted up by whole bytes (trailing zero bytes: LE-trimmed forms, NUMERIC)
+            let k = rng.below(nb);
+            let mut v = num::from_u128(u128::from(rng.next() >> rng.below(60)));
+            v.extend(std::iter::repeat(0).take(k));
+            clamp(num::trim_be(&v))
+        }
+        16 => {
+            // column-type limits: i16/i32/i64 max, u32 max, i64::MAX / 100 (MONEY)
+            let c = [i16::MAX as u128, i32::MAX as u128, u32::MAX as u128, i64::MAX as u128, (i64::MAX / 100) as u128, u64::MAX as u128];
+            let d = *rng.pick(&[0i64, 0, 1, -1]);
+            clamp(num::add_small(&num::from_u128(*rng.pick(&c)), d))
+        }
         0 => vec![],
         1 => vec![1],
         2 => {
@@ -45,7 +67,7 @@ pub fn gen_value(rng: &mut Rng, bits: usize) -> Num {
         }
         3 => {
             // SCALE compact / general mode boundaries
-            let k = *rng.pick(&[6usize, 7, 8, 14, 16, 30, 32, 62, 64]);
+            let k = *rng.pick(&[6usize, 7, 8, 14, 15, 16, 30, 31, 32, 62, 63, 64]);
             let d = *rng.pick(&[-1i64, 0, 1]);
             clamp(num::add_small(&num::pow2(k), d))
         }
